@@ -16,6 +16,7 @@ import (
 	"runtime/debug"
 	"sort"
 	"strings"
+	"sync"
 	"testing"
 	"testing/synctest"
 	"time"
@@ -41,6 +42,7 @@ type Run struct {
 	S    *simrt.Sim
 	Tier string
 
+	vmu        sync.Mutex
 	Viol       []Violation
 	Nontrivial bool
 	Class      string         // coarse scenario class (distinctness / stats)
@@ -49,10 +51,10 @@ type Run struct {
 	simEnd time.Duration
 	steps  int
 	late   []Violation
-	conns []*websocket.Conn
-	ends  []*simrt.End
-	Ctx   context.Context
-	stop  context.CancelFunc
+	conns  []*websocket.Conn
+	ends   []*simrt.End
+	Ctx    context.Context
+	stop   context.CancelFunc
 }
 
 // Violate records an oracle failure.
@@ -65,7 +67,10 @@ func (r *Run) Violate(oracle, sig, format string, a ...any) {
 	if len(msg) > 1500 {
 		msg = msg[:1500] + "…"
 	}
-	r.Viol = append(r.Viol, Violation{Oracle: oracle, Sig: sig, Msg: msg, Step: r.S.Step(), SimUS: r.S.Now().Microseconds()})
+	v := Violation{Oracle: oracle, Sig: sig, Msg: msg, Step: r.S.Step(), SimUS: r.S.Now().Microseconds()}
+	r.vmu.Lock()
+	r.Viol = append(r.Viol, v)
+	r.vmu.Unlock()
 }
 
 // D records a decoded scenario parameter.
@@ -115,7 +120,12 @@ func Execute(t *testing.T, p *Prop, tape *simrt.Tape, tier string, keepTrace boo
 	old := debug.SetGCPercent(-1)
 	defer debug.SetGCPercent(old)
 	var run *Run
-	func() {
+	// synctest.Test calls t.FailNow (runtime.Goexit) when the bubble's test
+	// failed, e.g. because the race detector reported something during it; run
+	// it on a goroutine of its own so that the worker survives and goes on.
+	done := make(chan struct{})
+	go func() {
+		defer close(done)
 		defer func() {
 			if rec := recover(); rec != nil {
 				res.Leak = fmt.Sprint(rec)
@@ -137,6 +147,7 @@ func Execute(t *testing.T, p *Prop, tape *simrt.Tape, tier string, keepTrace boo
 			run.cleanup()
 		})
 	}()
+	<-done
 	if run == nil {
 		res.Leak = "run did not start: " + res.Leak
 		return res
